@@ -18,7 +18,7 @@ import sys
 import tempfile
 from collections import Counter
 
-from common import coqrun, e2e, enc, scenario
+from common import collectives, coqrun, e2e, enc, scenario
 
 ID = "C01"
 MANIFEST = {
@@ -259,7 +259,7 @@ def oracle(s, desc, args, res, arrival, exported, drops):
         top = {k: v for k, v in e.items() if k not in ("attr", "args", "name")}
         if matches_filter(args.event_filter, t["name"], a, top):
             continue
-        if prep_active and t["kind"] == "Cmpt Prep" and not args.keep_prep:
+        if prep_active and PREP_RE.search(t["name"]) and not args.keep_prep:
             continue
         if args.drop_globals and any(g in t["name"] for g in GLB):
             continue
@@ -314,7 +314,15 @@ def one(ctx, r, atoms, work, case=None):
     """generate (or take) one case, run it, return record"""
     if case is None:
         s = scenario.gen_scenario(r)
+        if s.ranks >= 2 and r.random() < 0.5:
+            # chain all-reduce groups (complete, every rank contributes): clock alignment and bandwidth stages then
+            # buffer and shift real work instead of passing everything through
+            collectives.add_chain_allreduce(r, s, n_groups=r.choice([1, 2, 3]))
         opts, desc = gen_options(r, s)
+        if hasattr(s, "coll") and ("--event_limit" in opts or "--event_filter" in opts) and "-M" not in opts:
+            # limiting/filtering may remove a rank's whole contribution to a collective; the clock alignment then refuses
+            # the trace (exit 1 with a message) - a documented precondition of that stage, not a loss of events
+            opts.append("-M")
     else:
         s, opts, desc = case
     argv, res = run_case(s, opts, desc, work, atoms)
